@@ -26,7 +26,9 @@ their data semantics:
   are outside the claim).
 
 The clause sets are a parameter, so the same machinery runs PSyclone's clauses
-and the oracle's own "needed" clauses.
+and the oracle's own "needed" clauses.  The arrays are bound to their cells on
+routine entry (``attach``, called by mc.c12_oracle.RegionInterp once the
+storage of dummy arguments and of LOCAL arrays exists).
 
 ``NeedsTracer`` is the independent oracle for what a data region needs: it
 runs the program on ONE store and records, per array, the device accesses made
@@ -43,8 +45,9 @@ COMPUTE = (N.ACCKernelsDirective, N.ACCParallelDirective)
 class TwoStore:
     """hooks object for Interp: executes with separate device copies."""
 
-    def __init__(self, arrays, clauses):
-        self.arrays = arrays              # name -> ArrayVal (host cells)
+    def __init__(self, names, clauses):
+        self.names = list(names)          # the array variables of the routine
+        self.arrays = {}                  # name -> list of host cells (attach)
         self.copyin = set(clauses.get("copyin", ()))
         self.copyout = set(clauses.get("copyout", ()))
         self.copy = set(clauses.get("copy", ()))
@@ -53,9 +56,11 @@ class TwoStore:
         self.on_device = 0
         self.faults = []
         self.cell_array = {}
-        for name, arr in arrays.items():
-            for cell in arr.cells:
-                self.cell_array[id(cell)] = name
+
+    def attach(self, interp):
+        """Called by RegionInterp on routine entry, when the storage of every
+        variable (dummy arguments and locals) exists."""
+        attach_arrays(self, interp)
 
     def directive(self, interp, node, frame):
         if isinstance(node, N.ACCDataDirective):
@@ -63,7 +68,7 @@ class TwoStore:
             for name in sorted(self.copyin | self.copy | self.copyout):
                 if name in self.dev or name not in self.arrays:
                     continue
-                cells = self.arrays[name].cells
+                cells = self.arrays[name]
                 if name in self.copyout:
                     self.dev[name] = [I.POISON] * len(cells)
                 else:
@@ -76,7 +81,7 @@ class TwoStore:
                 self.in_data -= 1
             for name in created:
                 if name in self.copyout or name in self.copy:
-                    for cell, val in zip(self.arrays[name].cells, self.dev[name]):
+                    for cell, val in zip(self.arrays[name], self.dev[name]):
                         cell.v = val
                 del self.dev[name]
             return True
@@ -86,7 +91,7 @@ class TwoStore:
                 return True
             saved = {}
             for name, vals in self.dev.items():
-                cells = self.arrays[name].cells
+                cells = self.arrays[name]
                 saved[name] = [cell.v for cell in cells]
                 for cell, val in zip(cells, vals):
                     cell.v = val
@@ -108,7 +113,7 @@ class TwoStore:
                 self.on_device -= 1
                 interp.tracer = outer
                 for name, host_vals in saved.items():
-                    cells = self.arrays[name].cells
+                    cells = self.arrays[name]
                     self.dev[name] = [cell.v for cell in cells]
                     for cell, val in zip(cells, host_vals):
                         cell.v = val
@@ -119,15 +124,14 @@ class TwoStore:
 class NeedsTracer:
     """hooks + tracer for a ONE-store run: what does the data region need?"""
 
-    def __init__(self, arrays):
-        self.arrays = arrays
+    def __init__(self, names):
+        self.names = list(names)
+        self.arrays = {}           # name -> list of cells (attach)
         self.cell_array = {}
-        for name, arr in arrays.items():
-            for cell in arr.cells:
-                self.cell_array[id(cell)] = name
         self.in_data = 0
         self.on_device = 0
         self.dev_written = {}      # name -> set of id(cell) (this instance)
+        self.entry_defined = set()  # id(cell) defined at data-region entry
         self.dev_ue = set()        # arrays with an upward-exposed device read
         self.dev_any = set()       # arrays accessed on the device in the region
         self.host_read = set()     # arrays read by host statements in the region
@@ -135,18 +139,29 @@ class NeedsTracer:
         self.need_in = set()
         self.need_out = set()
 
+    def attach(self, interp):
+        attach_arrays(self, interp)
+
     def directive(self, interp, node, frame):
         if isinstance(node, N.ACCDataDirective):
             self.in_data += 1
             self.dev_written = {}
+            # Only DEFINED incoming values can be needed: an intent(out)
+            # dummy or a local array that nothing has defined yet holds
+            # nothing that must be copied in or that must survive.
+            self.entry_defined = {id(cell) for cells in self.arrays.values()
+                                  for cell in cells if cell.v is not I.POISON}
             try:
                 interp.exec_schedule(node.dir_body, frame)
             finally:
                 self.in_data -= 1
             for name, cells in self.dev_written.items():
                 self.need_out.add(name)
-                if len(cells) < len(self.arrays[name].cells):
-                    # the unwritten remainder must survive the copy back
+                if any(id(cell) not in cells and
+                       id(cell) in self.entry_defined
+                       for cell in self.arrays[name]):
+                    # the unwritten (defined) remainder must survive the
+                    # copy back
                     self.need_in.add(name)
             self.need_in |= self.dev_ue
             return True
@@ -169,7 +184,8 @@ class NeedsTracer:
             self.dev_any.add(name)
             done = self.dev_written.get(name)
             if kind == "R":
-                if done is None or id(cell) not in done:
+                if (done is None or id(cell) not in done) and \
+                        id(cell) in self.entry_defined:
                     self.dev_ue.add(name)
             else:
                 self.dev_written.setdefault(name, set()).add(id(cell))
@@ -177,6 +193,20 @@ class NeedsTracer:
             self.host_read.add(name)
         else:
             self.host_written.add(name)
+
+
+def attach_arrays(hooks, interp):
+    """Bind the array variables (dummy arguments AND local arrays) of the
+    routine to their host cells."""
+    hooks.arrays = {}
+    hooks.cell_array = {}
+    for name in hooks.names:
+        cells = interp.var_cells.get(name)
+        if cells is None:
+            raise I.Unsupported(f"no storage for array '{name}'")
+        hooks.arrays[name] = cells
+        for cell in cells:
+            hooks.cell_array[id(cell)] = name
 
 
 def needed_clauses(need_in, need_out):
